@@ -48,6 +48,8 @@ type tierCfg struct {
 	corrupt       int
 	churn         int
 	large         int
+	growReplace   int // 1: also try replacing each token by an identifier
+	growMax       int
 	serialSeconds float64
 	serialProcs   int
 	selfRuns      int
@@ -62,9 +64,9 @@ type tierCfg struct {
 }
 
 var tiers = map[string]tierCfg{
-	"quick": {name: "quick", corrupt: 300, churn: 1200, large: 18, serialSeconds: 20, serialProcs: 16, selfRuns: 200, pairsM: 64, firstPer: 3, preemptPairs: 96, preemptCap: 300,
+	"quick": {name: "quick", corrupt: 300, churn: 1200, large: 18, growReplace: 0, growMax: 600, serialSeconds: 20, serialProcs: 16, selfRuns: 200, pairsM: 64, firstPer: 3, preemptPairs: 96, preemptCap: 300,
 		burstSeconds: 12, burstMin: 1200, burstProcs: 6, hardCap: 15 * time.Minute},
-	"thorough": {name: "thorough", corrupt: 1500, churn: 6000, large: 32, serialSeconds: 720, serialProcs: 16, selfRuns: 5000, pairsM: 420, firstPer: 12, preemptPairs: 3000, preemptCap: 2000,
+	"thorough": {name: "thorough", corrupt: 1500, churn: 6000, large: 32, growReplace: 1, growMax: 3000, serialSeconds: 720, serialProcs: 16, selfRuns: 5000, pairsM: 420, firstPer: 12, preemptPairs: 3000, preemptCap: 2000,
 		burstSeconds: 240, burstMin: 30000, burstProcs: 6, hardCap: 90 * time.Minute},
 }
 
@@ -608,7 +610,61 @@ func doCheck(cfg tierCfg) int {
 	if left, _ := b.instr["sync_left_real"].([]any); len(left) > 0 {
 		fmt.Printf("note: files using sync primitives the simulator does not model keep the real package: %v\n", left)
 	}
-	common := []string{"-root", b.rootSerial, "-seed", fmt.Sprint(seed), "-corrupt", fmt.Sprint(cfg.corrupt), "-churn", fmt.Sprint(cfg.churn), "-large", fmt.Sprint(cfg.large)}
+	// -- phase 0: coverage-guided growth of the input pool (16 shards over the corpus) ------------------
+	ncpu0 := runtime.NumCPU()
+	if ncpu0 > 16 {
+		ncpu0 = 16
+	}
+	var growProcs []*proc
+	for i := 0; i < 16; i++ {
+		out := filepath.Join(scratch, fmt.Sprintf("grow-%d.json", i))
+		growProcs = append(growProcs, &proc{name: fmt.Sprintf("grow-%d", i), bin: b.serialBin, outFile: out, timeout: 10 * time.Minute,
+			args: []string{"-mode", "grow", "-w", fmt.Sprint(i), "-of", "16", "-m", fmt.Sprint(cfg.growReplace), "-root", b.rootSerial, "-seed", fmt.Sprint(seed), "-corrupt", "0", "-churn", "0", "-large", "0", "-out", out},
+			env:  []string{"GOMAXPROCS=1"}})
+	}
+	runAll(growProcs, ncpu0)
+	var grown []json.RawMessage
+	for _, p := range growProcs {
+		if p.killed || p.exit != 0 {
+			trouble("pool growth failed: %s: exit %d: %s", p.name, p.exit, tail(p.stderr.String(), 800))
+		}
+		raw, err := os.ReadFile(p.outFile)
+		if err != nil {
+			trouble("%v", err)
+		}
+		var part []json.RawMessage
+		if err := json.Unmarshal(raw, &part); err != nil && string(raw) != "null" {
+			trouble("%s: %v", p.outFile, err)
+		}
+		grown = append(grown, part...)
+	}
+	allFile := filepath.Join(scratch, "grown-all.json")
+	allRaw, _ := json.Marshal(grown)
+	if err := os.WriteFile(allFile, allRaw, 0o644); err != nil {
+		trouble("%v", err)
+	}
+	extraFile := filepath.Join(scratch, "extra.json")
+	gm := &proc{name: "growmerge", bin: b.serialBin, timeout: 10 * time.Minute,
+		args: []string{"-mode", "growmerge", "-extra", allFile, "-root", b.rootSerial, "-seed", fmt.Sprint(seed), "-corrupt", "0", "-churn", "0", "-large", "0", "-out", extraFile},
+		env:  []string{"GOMAXPROCS=1"}}
+	gm.run()
+	if gm.killed || gm.exit != 0 {
+		trouble("pool growth (merge) failed: exit %d: %s", gm.exit, tail(gm.stderr.String(), 800))
+	}
+	shardFinds := len(grown)
+	grown = nil
+	if raw, err := os.ReadFile(extraFile); err == nil {
+		json.Unmarshal(raw, &grown)
+	}
+	if len(grown) > cfg.growMax {
+		grown = grown[:cfg.growMax]
+	}
+	extraRaw, _ := json.Marshal(grown)
+	if err := os.WriteFile(extraFile, extraRaw, 0o644); err != nil {
+		trouble("%v", err)
+	}
+	fmt.Printf("[t=%.0fs] pool growth: %d inputs added (of %d shard finds) because they execute yield sites the corpus does not reach (single-token truncations / deletions of corpus files)\n", time.Since(start).Seconds(), len(grown), shardFinds)
+	common := []string{"-root", b.rootSerial, "-seed", fmt.Sprint(seed), "-corrupt", fmt.Sprint(cfg.corrupt), "-churn", fmt.Sprint(cfg.churn), "-large", fmt.Sprint(cfg.large), "-extra", extraFile}
 	ncpu := runtime.NumCPU()
 	if ncpu > 16 {
 		ncpu = 16
@@ -840,7 +896,7 @@ func doCheck(cfg tierCfg) int {
 				out := filepath.Join(scratch, fmt.Sprintf("burst-%d-%d.json", i, restarts))
 				p := &proc{name: fmt.Sprintf("burst-%d", i), bin: b.raceBin, outFile: out, timeout: time.Duration(left*8+120) * time.Second,
 					args: append([]string{"-mode", "burst", "-w", fmt.Sprint(i), "-of", fmt.Sprint(cfg.burstProcs), "-from", fmt.Sprint(from), "-seconds", fmt.Sprint(left), "-minruns", fmt.Sprint(minLeft), "-refs", table, "-out", out},
-						"-root", b.rootRace, "-seed", fmt.Sprint(seed), "-corrupt", fmt.Sprint(cfg.corrupt), "-churn", fmt.Sprint(cfg.churn), "-large", fmt.Sprint(cfg.large)),
+						"-root", b.rootRace, "-seed", fmt.Sprint(seed), "-corrupt", fmt.Sprint(cfg.corrupt), "-churn", fmt.Sprint(cfg.churn), "-large", fmt.Sprint(cfg.large), "-extra", extraFile),
 					env: []string{"GOMAXPROCS=" + bgmp[i%len(bgmp)], "GORACE=halt_on_error=1 exitcode=66 history_size=4", "GOMEMLIMIT=6GiB"}}
 				p.run()
 				bmu.Lock()
@@ -1001,7 +1057,7 @@ func doCheck(cfg tierCfg) int {
 					m["gomaxprocs"] = g
 				}
 				m["expect"] = failure{Oracle: strings.SplitN(rr.identity, "|", 2)[0], Key: rr.identity, Detail: rr.kind}
-				m["seeded_prefix"] = map[string]any{"seed": seed, "first": rr.worker, "stride": cfg.burstProcs, "last": rr.burst, "corrupt": cfg.corrupt, "churn": cfg.churn, "large": cfg.large}
+				m["seeded_prefix"] = map[string]any{"seed": seed, "first": rr.worker, "stride": cfg.burstProcs, "last": rr.burst, "corrupt": cfg.corrupt, "churn": cfg.churn, "large": cfg.large, "extra_inputs": json.RawMessage(extraRaw)}
 				raw, _ = json.MarshalIndent(m, "", " ")
 			}
 		}
@@ -1057,6 +1113,7 @@ func doCheck(cfg tierCfg) int {
 			"yield_sites_covered_max_per_process":     tot.SitesCovered,
 			"switch_edges_max_per_process":            tot.SwitchEdges,
 			"pool_inputs":                             tot.PoolInputs,
+			"pool_inputs_grown_by_coverage":           len(grown),
 			"pool_operations":                         tot.PoolOps,
 			"reference_table_hash":                    mst.RefTableHash,
 			"reference_entries_recomputed_by_workers": tot.RefChecked,
